@@ -519,6 +519,8 @@ func (a *AddrManager) nextAddresses(dbTransaction db.DBTransaction, internal boo
 }
 
 func (a *AddrManager) updateManagedAddress(dbTransaction db.ReadTransaction, managedAddresses []*ManagedAddress) error {
+	a.mu.Lock()
+	defer a.mu.Unlock()
 	for _, managedAddress := range managedAddresses {
 		a.addrs[managedAddress.address] = managedAddress
 	}
